@@ -30,10 +30,38 @@ class FuncFacts(object):
             return "call:" + (f.attr if isinstance(f, ast.Attribute) else getattr(f, "id", "?"))
         return None
 
+    @staticmethod
+    def _acq_rel(stmt, what):
+        """`X.acquire()` / `X.release()` as an expression statement -> source of X, else None."""
+        if isinstance(stmt, ast.Expr) and isinstance(stmt.value, ast.Call) and isinstance(stmt.value.func, ast.Attribute) and stmt.value.func.attr == what \
+                and not stmt.value.args and not stmt.value.keywords:
+            return stmt.value.func.value
+        return None
+
+    def _explicit_map(self, stmts):
+        """the try/finally spelling of `with X:`  -  X.acquire(); try: BODY finally: X.release()  -  holds X over BODY: id(Try) -> lock attribute"""
+        explicit = {}
+        if isinstance(stmts, list):
+            for i in range(len(stmts) - 1):
+                x = self._acq_rel(stmts[i], "acquire")
+                nxt = stmts[i + 1]
+                if x is not None and isinstance(nxt, ast.Try) and any(
+                        (lambda y: y is not None and _src(y) == _src(x))(self._acq_rel(fs, "release")) for fs in nxt.finalbody):
+                    explicit[id(nxt)] = x.attr if isinstance(x, ast.Attribute) else (x.id if isinstance(x, ast.Name) else None)
+        return explicit
+
     def _walk(self, node, held):
+        explicit = {}
+        for fld in ("body", "orelse", "finalbody"):
+            explicit.update(self._explicit_map(getattr(node, fld, None)))
         for ch in ast.iter_child_nodes(node):
             if isinstance(ch, (ast.FunctionDef, ast.Lambda)) and ch is not self.func.node:
                 continue        # nested functions are separate table entries, run later
+            if id(ch) in explicit and explicit[id(ch)]:
+                la = explicit[id(ch)]
+                self.withs.append((la, held, ch.lineno))
+                self._visit(ch, held + (la,))
+                continue
             self._visit(ch, held)
 
     def _visit(self, ch, held):
@@ -43,8 +71,13 @@ class FuncFacts(object):
                 self._walk(it, held)
             self.withs.append((la, held, ch.lineno))
             h2 = held + ((la,) if la else ())
+            explicit = self._explicit_map(ch.body)
             for b in ch.body:
-                self._visit(b, h2)
+                if explicit.get(id(b)):
+                    self.withs.append((explicit[id(b)], h2, b.lineno))
+                    self._visit(b, h2 + (explicit[id(b)],))
+                else:
+                    self._visit(b, h2)
             return
         if isinstance(ch, ast.Attribute):
             kind = {"Load": "load", "Store": "store", "Del": "del"}[type(ch.ctx).__name__]
